@@ -352,3 +352,48 @@ Proof.
   - exact KeysInv_init.
   - apply prev_ok_init.
 Qed.
+
+(** ** The compressed encoding of cases is lossless *)
+Definition compress_feed (prev : list (Z * fobs)) (nf : Z * fobs) : Z * option fobs :=
+  let '(n, fo) := nf in
+  (n, if fobs_eqb fo (match get n prev with Some p => p | None => empty_fobs end) then None else Some fo).
+
+Fixpoint compress_from (prev : list (Z * fobs)) (c : case) : ccase :=
+  match c with
+  | [] => []
+  | (st, o) :: rest =>
+      (st, mkCObs (o_code o) (map (compress_feed prev) (o_feeds o))) :: compress_from (o_feeds o) rest
+  end.
+
+Lemma fobs_eqb_eq a b : fobs_eqb a b = true -> a = b.
+Proof.
+  destruct a as [a1 a2 a3 a4 a5], b as [b1 b2 b3 b4 b5]. unfold fobs_eqb. cbn [fo_feed fo_vals fo_run fo_pau fo_ctx].
+  intros H. apply andb_prop in H. destruct H as [H H5]. apply andb_prop in H. destruct H as [H H4].
+  apply andb_prop in H. destruct H as [H H3]. apply andb_prop in H. destruct H as [H1 H2].
+  apply (proj1 (Prelude.eqb_true_iff _ _)) in H1. apply (proj1 (Prelude.eqb_true_iff _ _)) in H2.
+  apply (proj1 (Prelude.eqb_true_iff _ _)) in H5.
+  apply Bool.eqb_prop in H3. apply Bool.eqb_prop in H4. subst. reflexivity.
+Qed.
+
+Lemma expand_compress_feed prev nf : expand_feed prev (compress_feed prev nf) = nf.
+Proof.
+  destruct nf as [n fo]. unfold compress_feed, expand_feed.
+  destruct (fobs_eqb fo (match get n prev with Some p => p | None => empty_fobs end)) eqn:E; [|reflexivity].
+  apply fobs_eqb_eq in E. rewrite E. reflexivity.
+Qed.
+
+Lemma expand_compress c : forall prev, expand_from prev (compress_from prev c) = c.
+Proof.
+  induction c as [|[st o] c IH]; intros prev; [reflexivity|]. cbn [compress_from expand_from co_code co_feeds].
+  rewrite map_map.
+  assert (E : map (fun x => expand_feed prev (compress_feed prev x)) (o_feeds o) = o_feeds o).
+  { induction (o_feeds o) as [|nf l IHl]; [reflexivity|]. cbn [map]. rewrite expand_compress_feed, IHl. reflexivity. }
+  rewrite E, IH. destruct o. reflexivity.
+Qed.
+
+Lemma model_passes_check_c_lemma (names : list Z) (steps : list step) :
+  run_consistent init steps = true -> Forall step_ok steps ->
+  check_case_c (compress_from [] (model_trace names init steps)) = (-1, -1, 0).
+Proof.
+  intros Hc Hok. unfold check_case_c. rewrite expand_compress. apply model_passes_check_lemma; assumption.
+Qed.
